@@ -19,13 +19,20 @@ Proof. rewrite !is_shared_In. unfold mark. intro H. apply in_or_app. right. assu
 
 (* the flags only grow *)
 Lemma step_shared_mono s e u : is_shared (shared s) u = true -> is_shared (shared (step s e)) u = true.
-Proof. intro H. destruct e as [w [t|t|t]]; unfold step; cbn [snd fst shared]; try assumption. apply mark_mono. assumption. Qed.
+Proof.
+  intro H. destruct e as [w [t|t|t|t]]; unfold step, step_pol, record; cbn [snd fst shared]; try assumption.
+  - destruct (cache_written false (shared s) t); cbn [shared]; assumption.
+  - apply mark_mono. assumption.
+Qed.
 
-(* invariant: every recorded access to a common table was locked; every recorded access was in reach *)
+(* an access holds the lock its kind requires: read lock for reads, write lock for writes *)
+Definition proper (a : access) : Prop := a_lock a = if a_write a then WLock else RLock.
+
+(* invariant: every recorded access to a common table was properly locked; every recorded access was in reach *)
 Definition inv (sc : scopes) (s : state) : Prop :=
   (forall t, In t (common sc) -> is_shared (shared s) t = true) /\
   (forall a, In a (hist s) -> reach sc (a_tid a) (a_tbl a) = true) /\
-  (forall a, In a (hist s) -> In (a_tbl a) (common sc) -> a_locked a = true) /\
+  (forall a, In a (hist s) -> In (a_tbl a) (common sc) -> proper a) /\
   raced s = false.
 
 Lemma In_common sc t : existsb (tbl_eqb t) (common sc) = true <-> In t (common sc).
@@ -45,23 +52,44 @@ Proof.
   destruct (existsb (tbl_eqb t) (common sc)); [reflexivity|]. cbn in HP, HC. rewrite HP, HC in Hd. discriminate.
 Qed.
 
-Lemma no_conflict sc U s w t wr :
-  disjoint_scopes sc U = true -> In t U -> inv sc s -> reach sc w t = true ->
-  existsb (conflict (mkAcc w t wr (is_shared (shared s) t))) (hist s) = false.
+Lemma proper_excluded x y : proper x -> proper y -> (a_write x || a_write y) = true ->
+  excluded (a_lock x) (a_lock y) = true.
 Proof.
-  intros Hd Ht [Hc [Hr [Hl _]]] Hw.
+  unfold proper. intros Hx Hy Hw. rewrite Hx, Hy.
+  destruct (a_write x), (a_write y); cbn in *; try reflexivity; discriminate.
+Qed.
+
+Lemma no_conflict sc U s (a' : access) :
+  disjoint_scopes sc U = true -> In (a_tbl a') U -> inv sc s -> reach sc (a_tid a') (a_tbl a') = true ->
+  (In (a_tbl a') (common sc) -> proper a') ->
+  existsb (conflict a') (hist s) = false.
+Proof.
+  intros Hd Ht [Hc [Hr [Hl _]]] Hw Hp.
   destruct (existsb _ (hist s)) eqn:E; [|reflexivity]. exfalso.
   apply existsb_exists in E. destruct E as [a [Ha Hcf]].
-  unfold conflict in Hcf. cbn in Hcf.
+  unfold conflict in Hcf.
   apply andb_prop in Hcf. destruct Hcf as [Hcf Hlk].
-  apply andb_prop in Hcf. destruct Hcf as [Hcf _].
+  apply andb_prop in Hcf. destruct Hcf as [Hcf Hwr].
   apply andb_prop in Hcf. destruct Hcf as [Heq Htid].
   apply tbl_eqb_eq in Heq.
-  assert (Hcom : In t (common sc)).
+  assert (Hcom : In (a_tbl a') (common sc)).
   { specialize (Hr a Ha). rewrite <- Heq in Hr.
-    destruct w, (a_tid a); cbn in Htid; try discriminate;
+    destruct (a_tid a'), (a_tid a); cbn in Htid; try discriminate;
       eapply both_reach_common; eauto. }
-  rewrite (Hc t Hcom) in Hlk. pose proof (Hl a Ha) as Hla. rewrite <- Heq in Hla. rewrite (Hla Hcom) in Hlk. discriminate.
+  assert (Hpa : proper a) by (apply Hl; [assumption|rewrite <- Heq; assumption]).
+  rewrite (proper_excluded a' a (Hp Hcom) Hpa Hwr) in Hlk. discriminate.
+Qed.
+
+Lemma inv_record sc U s (a' : access) :
+  disjoint_scopes sc U = true -> In (a_tbl a') U -> inv sc s -> reach sc (a_tid a') (a_tbl a') = true ->
+  (In (a_tbl a') (common sc) -> proper a') -> inv sc (record s a').
+Proof.
+  intros Hd Ht Hi Hw Hp. pose proof Hi as [Hc [Hr [Hl Hrc]]].
+  unfold record. repeat split; cbn [shared hist raced].
+  - assumption.
+  - intros a [<-|Ha]; auto.
+  - intros a [<-|Ha] Hin; auto.
+  - rewrite Hrc. cbn. eapply no_conflict; eauto.
 Qed.
 
 Lemma inv_step sc U s e :
@@ -69,17 +97,14 @@ Lemma inv_step sc U s e :
   reach sc (fst e) (act_tbl (snd e)) = true -> inv sc s -> inv sc (step s e).
 Proof.
   intros Hd Ht Hw Hi. pose proof Hi as [Hc [Hr [Hl Hrc]]].
-  destruct e as [w [t|t|t]]; cbn in Ht, Hw; unfold step; cbn [snd fst].
-  - (* Read *) repeat split; cbn.
-    + assumption.
-    + intros a [<-|Ha]; cbn; auto.
-    + intros a [<-|Ha] Hin; cbn; auto.
-    + rewrite Hrc. cbn. eapply no_conflict; eauto.
-  - (* Write *) repeat split; cbn.
-    + assumption.
-    + intros a [<-|Ha]; cbn; auto.
-    + intros a [<-|Ha] Hin; cbn; auto.
-    + rewrite Hrc. cbn. eapply no_conflict; eauto.
+  destruct e as [w [t|t|t|t]]; cbn in Ht, Hw; unfold step, step_pol; cbn [snd fst].
+  - (* Read *) apply (inv_record sc U); auto. cbn. intro Hin. unfold proper, rmode. cbn. rewrite (Hc t Hin). reflexivity.
+  - (* Write *) apply (inv_record sc U); auto. cbn. intro Hin. unfold proper, wmode. cbn. rewrite (Hc t Hin). reflexivity.
+  - (* Lookup *)
+    assert (H1 : inv sc (record s (mkAcc w t false (rmode (shared s) t)))).
+    { apply (inv_record sc U); auto. cbn. intro Hin. unfold proper, rmode. cbn. rewrite (Hc t Hin). reflexivity. }
+    unfold cache_written. cbn [orb]. destruct (is_shared (shared s) t) eqn:Es; cbn [negb]; [assumption|].
+    apply (inv_record sc U); auto. cbn. intro Hin. rewrite (Hc t Hin) in Es. discriminate.
   - (* Mark *) repeat split; cbn; auto. intros t0 Ht0. apply (mark_mono (shared s) t t0). auto.
 Qed.
 
@@ -90,7 +115,7 @@ Lemma run_no_race sc U S0 il :
   (forall t, In t (common sc) -> is_shared S0 t = true) ->
   raced (run S0 il) = false.
 Proof.
-  intros Hd HU Hws H0. unfold run.
+  intros Hd HU Hws H0. unfold run, run_pol. fold step.
   assert (Hinv : inv sc (mkState S0 [] false)).
   { repeat split; cbn; auto; intros a []. }
   revert Hinv. generalize (mkState S0 [] false) as s.
@@ -101,6 +126,14 @@ Proof.
     + intros e' He'. apply HU. right. assumption.
     + eapply inv_step; eauto. apply HU. left. reflexivity.
 Qed.
+
+(* the cache-on-shared-tables variant: two goroutines resolving a global through the shared captured
+   function scope race on its cache fields although both hold its read lock *)
+Definition cache_schedule : list (tid * act) := [(P, Lookup [1; 0]); (C, Lookup [1; 0])].
+Lemma cache_on_shared_races :
+  raced (run_pol true (fork_state_new [[0]] [1; 0]) cache_schedule) = true /\
+  raced (run_pol false (fork_state_new [[0]] [1; 0]) cache_schedule) = false.
+Proof. vm_compute. split; reflexivity. Qed.
 
 (* marking the captured scope before the fork makes its whole chain shared *)
 Lemma suffixes_self t : In t (suffixes t).
@@ -190,4 +223,12 @@ Proof.
   intros sc U S0 sp ilP ilC il Hd _ _ HU H0 HP HC Hil.
   eapply run_no_race; eauto.
   unfold well_scoped in *. eapply interleave_forallb; eauto.
+Qed.
+
+(* an operation that holds only the read lock of a shared table stores nothing in it *)
+Lemma lookup_dirty_unshared B S t u : In u (lookup_dirty false B S t) -> is_shared S u = false.
+Proof.
+  unfold lookup_dirty. intro H. apply filter_In in H. destruct H as [_ H].
+  apply andb_prop in H. destruct H as [_ H]. unfold cache_written in H. cbn in H.
+  destruct (is_shared S u); [discriminate|reflexivity].
 Qed.
